@@ -15,10 +15,18 @@ import (
 )
 
 func showInvEvents(inv *invocation) string {
-	if inv == nil || len(inv.events) == 0 {
+	var evs []string
+	if inv != nil {
+		for _, e := range inv.events {
+			if !strings.HasPrefix(e, "F:") {
+				evs = append(evs, e)
+			}
+		}
+	}
+	if len(evs) == 0 {
 		return "-"
 	}
-	return strings.Join(inv.events, ",")
+	return strings.Join(evs, ",")
 }
 
 func withFlags(f rapid.VerifFlags, body func()) {
